@@ -16,11 +16,14 @@ FUNCTIONS = ["SubArrayHandler._get_def_dict", "SubArrayHandler._get_key_single_i
 ASSUMPTIONS = ["subset selections are Dimension objects with a fresh letter (replace() refuses a letter already in the set)"]
 OUTSIDE = ["more than 5 dimensions", "FlodymArray right-hand sides under list selectors (partially addressed dimension keeps its full-length letter)",
            "items_where on arrays with more than 6 entries (one fork per entry)"]
+VARIANTS = 'tuple keys mixing unknown and shared labels; keys that merely convert to an item of a typed dimension; integer items out of order / unevenly spaced; falsy labels'
 BOUNDS = {
     "quick": dict(arrays="1-3 dims, lengths (3) (2,3) (3,2) (2,2) (2,2,2) (2,3,2) (1,2,3) (4) (5) (4,2) and one 5-d array (2,2,2,2,2) with single selections of the last item only", selectors="none / single item / subset Dimension (every ordered non-empty subset) / list (writes)",
                   spellings="dict by letter, dict by name, bare item, tuple (both orders), ellipsis", items_where_entries="<= 6"),
     "thorough": dict(arrays="quick + (3,3) (3,3,2) (2,2,2,2) (2,1,2,2,2) (2,2,2,2,2)", selectors="as quick; 5-dim arrays with subsets of <=2 items", spellings="as quick"),
 }
+for _t in BOUNDS.values():
+    _t["variants_beyond_the_base_enumeration"] = VARIANTS
 OPTS = {"quick": dict(shadow_every=60, max_paths=300), "thorough": dict(shadow_every=400, max_paths=300)}
 
 SHAPES_Q = ["a3", "a2b3", "a3b2", "b2a2", "a2b2c2", "c2a3b2", "a1b2c3", "a4", "a5", "a4b2", "a2b2c2d2e2"]
